@@ -128,7 +128,27 @@ def run_property(pid, spec, tier, seed, scratch, logdir, a, t0):
     pool = TdPool()
     results = []
 
+    import threading
+
+    budget = {"free": float(os.environ.get("VERIF_MEM_GB", "48"))}
+    cond = threading.Condition()
+
     def work(h):
+        # memory-aware admission: the sum of the harnesses' expected peak RSS stays under the
+        # budget (62 GB machine, no swap); `est_gb` comes from measured runs (default 6)
+        need = min(float(h.get("est_gb", 6)), 44.0)
+        with cond:
+            while budget["free"] < need:
+                cond.wait()
+            budget["free"] -= need
+        try:
+            return work_inner(h)
+        finally:
+            with cond:
+                budget["free"] += need
+                cond.notify_all()
+
+    def work_inner(h):
         if h.get("needs_segment"):
             missing = [s for s in h["needs_segment"] if not seg_info.get(s, {}).get("ok")]
             if missing:
